@@ -232,6 +232,10 @@ func (fr *Frame) logCall(alias string, cc *ssa.CallCommon, res Val) {
 }
 
 func (fr *Frame) logCallIf(alias string, cc *ssa.CallCommon, res Val, cond Term) {
+	if fr.R.loggedAlias == nil {
+		fr.R.loggedAlias = map[string]bool{}
+	}
+	fr.R.loggedAlias[alias] = true
 	g := fr.st.ghost
 	cntKey := "calls." + alias
 	cnt, ok := g[cntKey]
@@ -643,7 +647,7 @@ func (fr *Frame) canInline(fn *ssa.Function, bindings []Val) bool {
 	if len(fn.Blocks) > 60 {
 		return false
 	}
-	if fr.R.inlinedBlocks+len(fn.Blocks) > 600 {
+	if fr.R.inlinedBlocks+len(fn.Blocks) > 600 && len(fn.Blocks) > 1 {
 		// keep verification conditions small: beyond this budget callees are abstracted (havoc)
 		return false
 	}
